@@ -155,6 +155,8 @@ class Scenario:
             meta['note'] = note
         if oracle or self.oracle:
             meta['oracle'] = oracle or self.oracle
+            if getattr(self, 'oracle_prop', None):
+                meta['oracle'] = dict(meta['oracle'], prop=self.oracle_prop)
         if hint is not None:
             meta['refute_hint'] = hint      # a sub-class of inputs expected to contain a counter-model
         out = self.run.oblige(name, goal, kind=kind, exact=exact, meta=meta)
@@ -178,6 +180,13 @@ class ObRec:
         self.meta = {k: ob.meta.get(k) for k in ('finding', 'oracle', 'note', 'func', 'scenario') if ob.meta.get(k)}
         self.nhyps = len(ob.hyps)
         self.witness, self.goal_str, self.hyps_str = {}, '', []
+
+
+def _scenario_oracle(S):
+    o = getattr(S, 'oracle', None)
+    if o and getattr(S, 'oracle_prop', None):
+        o = dict(o, prop=S.oracle_prop)
+    return o
 
 
 class Check:
@@ -216,13 +225,31 @@ class Check:
                               loop_specs=loop_specs, axioms=axioms, expect_normal=expect_normal, call_hook=call_hook,
                               max_paths=max_paths))
 
+    def include(self, build, prop, pred):
+        """register, by reference, the scenarios of another pack `prop` whose function name satisfies `pred`: they are
+        re-run here as obligations of this check (their native oracles stay those of the owning pack)"""
+        real = self.explore
+
+        def filtered(func_name, body, *a, **k):
+            if pred(func_name):
+                n = len(self.jobs)
+                real(func_name, body, *a, **k)
+                for j in self.jobs[n:]:
+                    j['oracle_prop'] = prop
+        self.explore = filtered
+        try:
+            build(self)
+        finally:
+            self.explore = real
+
     def _explore_now(self, func_name, body, theory, label='', contracts=None, loop_specs=None, axioms=(),
-                     expect_normal=True, call_hook=None, max_paths=4000):
+                     expect_normal=True, call_hook=None, max_paths=4000, oracle_prop=None):
         def thunk(run):
             I = Interp(self.P, run, theory, contracts or {}, loop_specs or {}, call_hook)
             I.obl_prefix = f'{self.prop}/{func_name}'
             I.cur_name = lambda: I.obl_prefix + (f'#{label}' if label else '')
             S = Scenario(self, func_name, label, I)
+            S.oracle_prop = oracle_prop
             run._S = S
             if hasattr(theory, 'bind'):
                 theory.bind(I)
@@ -246,7 +273,7 @@ class Check:
             if r.outcome[0] == 'unsupported':
                 st['unsupported'] += 1
                 self._undecided(func_name, label, f'unsupported: {r.outcome[1]}',
-                                oracle=getattr(getattr(r.run, '_S', None), 'oracle', None))
+                                oracle=_scenario_oracle(getattr(r.run, '_S', None)))
             elif r.outcome[0] == 'end':
                 st['ended'] += 1
             elif r.outcome[0] == 'raise':
@@ -261,7 +288,8 @@ class Check:
                     continue
                 self._seen.add(key)
                 self.obligations.append(ob)
-        if expect_normal and nrm == 0:
+        if expect_normal and nrm == 0 and not any(r.outcome[0] == 'unsupported' for r in results):
+            # (a scenario that stops at an unsupported construct is UNDECIDED — exit 2 —, not a broken checker)
             self.vacuity.append(f'{func_name}#{label}: no path reached the end of the scenario')
         return results
 
@@ -544,7 +572,7 @@ class Check:
         spec['seed'] = self.seed
         key = json.dumps(spec, sort_keys=True, default=str)
         if key not in self._oracle_cache:
-            self._oracle_cache[key] = run_native(self.prop, spec)
+            self._oracle_cache[key] = run_native(spec.get('prop') or self.prop, spec)
         return self._oracle_cache[key]
 
     # ------------------------------------------------------------------ evidence
